@@ -269,6 +269,32 @@ func runC08(o *Out) {
 			checkResizeAll(o, r, seq, &cnt, len(fwd) <= 2 || o.Tier == "thorough")
 		}
 	}
+	// regions whose segments are not in ascending order (a feature spanning the
+	// origin, exons listed 3' to 5'), on either strand and mixed, on RNA residues:
+	// the strand of a region is the strand of each of its segments, never a guess
+	// from where it begins and ends
+	rna := gts.New(nil, nil, []byte("acguacguugcaUGCAacguuuacguacgu"))
+	for _, r := range []gts.Regions{
+		{gts.Segment{11, 16}, gts.Segment{1, 4}},
+		{gts.Segment{18, 23}, gts.Segment{2, 5}, gts.Segment{8, 9}},
+		{gts.Segment{16, 11}, gts.Segment{1, 4}},
+		{gts.Segment{4, 1}, gts.Segment{16, 11}},
+		{gts.Segment{20, 24}, gts.Regions{gts.Segment{9, 12}, gts.Segment{3, 5}}},
+	} {
+		checkResizeAll(o, r, rna, &cnt, true)
+		whole, ok := safeSeq(func() gts.Sequence { return r.Locate(rna) })
+		var want []byte
+		for _, d := range regionDen(r) {
+			c := rna.Bytes()[d.p]
+			if d.c {
+				c = map[byte]byte{'a': 't', 'c': 'g', 'g': 'c', 'u': 'a', 'A': 'T', 'C': 'G', 'G': 'C', 'U': 'A'}[c]
+			}
+			want = append(want, c)
+		}
+		if !ok || string(whole.Bytes()) != string(want) {
+			o.Violate("locate-reads-the-denoted-residues", join("region_locate", regionSx(r)), fmt.Sprintf("%q want %q", whole.Bytes(), want))
+		}
+	}
 	// mirror law and modifier normal forms
 	for _, m := range allModifiers(4, true) {
 		for h := 0; h <= 6; h++ {
@@ -565,6 +591,11 @@ func runC09(o *Out) {
 			}
 		}
 	}
+	// nothing selected: the inversion is everything
+	for _, n := range []int{1, 4, 9} {
+		checkMinimize(o, gts.Regions{}, n)
+		checkMinimize(o, gts.Regions{gts.Regions{}, gts.Regions{gts.Regions{}}}, n)
+	}
 	for _, a := range segs4 {
 		checkMinimize(o, gts.Regions{a}, 4)
 		checkMinimize(o, a, 4)
@@ -677,6 +708,10 @@ func checkMinimize(o *Out, r gts.Region, n int) {
 			o.Violate("minimize-order-dependent", line, segsSx(gts.Minimize(perm)))
 		}
 	}
+	if resC == "panic" {
+		o.Violate("panic", join("invert_circular", regionSx(r), itoa(n)), "InvertCircular")
+		return
+	}
 	// linear inversion partitions [0,n)
 	inv := gts.InvertLinear(r, n)
 	cnt := map[int]int{}
@@ -701,7 +736,7 @@ func checkMinimize(o *Out, r gts.Region, n int) {
 		}
 	}
 	// circular inversion covers the same residues
-	if len(ss) > 0 {
+	{
 		if resC == "panic" {
 			if len(inv) > 0 || true {
 				o.Violate("panic", join("invert_circular", regionSx(r), itoa(n)), "")
@@ -717,7 +752,7 @@ func checkMinimize(o *Out, r gts.Region, n int) {
 			o.Violate("circular-cover", join("invert_circular", regionSx(r), itoa(n)), regionsSx(circ))
 		}
 		// the two end pieces are merged across the origin
-		if len(inv) >= 2 && ss[0][0] != 0 && ss[len(ss)-1][1] != n {
+		if len(inv) >= 2 && len(ss) > 0 && ss[0][0] != 0 && ss[len(ss)-1][1] != n {
 			first, ok := circ[0].(gts.Regions)
 			if !ok || len(first) != 2 || !reflect.DeepEqual(first[0], inv[len(inv)-1]) || !reflect.DeepEqual(first[1], inv[0]) || len(circ) != len(inv)-1 {
 				o.Violate("circular-not-merged", join("invert_circular", regionSx(r), itoa(n)), regionsSx(circ))
